@@ -88,7 +88,8 @@ func NewHeaderParameter(sr specification.Ref[specification.HeaderParameter], com
 		Description: s.Description,
 	}
 	out.Name = s.Name
-	out.FieldName = PublicFieldName(s.Name)
+	// the field of the params struct is declared by NewHandlerHeaderParameter as Title(name)
+	out.FieldName = Title(s.Name)
 
 	schema, ims, err := NewSchema(s.Schema, components, cfg)
 	if err != nil {
